@@ -454,6 +454,7 @@ func vdrCase(c *Ctx, focus string) {
 		}
 		c.Res.Probes["kill-reports"]++
 		seen := map[string]bool{}
+		counted := map[string]bool{}
 		var knownBytes uint64
 		var knownFiles uint
 		for _, kp := range rep.Paths {
@@ -473,7 +474,10 @@ func vdrCase(c *Ctx, focus string) {
 				}
 			}
 			for fp, rec := range r.Files {
-				if fp == kp || strings.HasPrefix(fp, kp+"/") {
+				if (fp == kp || strings.HasPrefix(fp, kp+"/")) && !counted[fp] {
+					// (a file listed on its own in one round and again below its
+					// directory in a later one is one file)
+					counted[fp] = true
 					knownBytes += uint64(len(rec.Content))
 					knownFiles++
 				}
